@@ -10,6 +10,7 @@ CONSTANTS
     BugDrainWrong = TRUE
     BugLowWaterStrict = FALSE
     BugNoRereg = FALSE
+    BugCloseLeaves = FALSE
 SPECIFICATION Spec
 INVARIANTS NoLoss
 CHECK_DEADLOCK FALSE
